@@ -3,7 +3,7 @@
         b106: 0/1   did/nad: decimal or "-"   release: - | R | D
         script: "-" or pairs of D/L/C separated by '.'  (DD.LD.CC)
         payloads: "-" or comma separated hex strings ("." = empty payload)
-        app: "-" or comma separated rtox:hex
+        app: "-" or comma separated rtox:hex, rtox = 0 or RTOX values separated by '.'
    dec_ini <b106> <hex> / dec_tgt <b106> <hex> / enc_frame <b106> <hex> *)
 open C04
 
@@ -46,7 +46,8 @@ let fate_ch = function FD -> "D" | FL -> "L" | FC -> "C"
 let script_of s = List.map (fun p -> (fate_of p.[0], fate_of p.[1])) (split '.' s)
 let payloads_of s = List.map bytes_of_hex (split ',' s)
 let app_of s = List.map (fun it -> match String.split_on_char ':' it with
-    | [r; h] -> (zi r, bytes_of_hex h) | _ -> failwith "app") (split ',' s)
+    | [r; h] -> ((if r = "0" || r = "-" then [] else List.map zi (String.split_on_char '.' r)), bytes_of_hex h)
+    | _ -> failwith "app") (split ',' s)
 
 let show_dep d = Printf.sprintf "fmt=%d pni=%d did=%s nad=%s data=%s" (int_of_z d.fmt) (int_of_z d.pni)
     (show_zopt d.did) (show_zopt d.nad) (hex_of_bytes d.data)
